@@ -21,8 +21,9 @@ CHECKS = [
      "text": "Hypothesis-generated histories of 1..12 public network / mesh calls on drawn nodes of drawn topologies (network family "
              "and mesh family), every node running its update() loop as a task, under a drawn cyclic loss word (lost packets, lost "
              "ACKs) and absent / invalid / own destinations; the listening invariant is read from the simulated chip every time any "
-             "public call - including each update() of every node - returns, and on all nodes at quiescence; histories and "
-             "schedules are sampled",
+             "public call - including each update() of every node - returns, and on all nodes at quiescence; an enumerated family "
+             "has the application stop listening / power down and then write (to a neighbour, through a parent, to nobody, to "
+             "itself); histories and schedules are sampled",
      "design_ref": "4/C07", "note": SIM_NOTE + "; expected pipe addresses from vlib/ref/netaddr.py for the node's current public "
      "node_address / multicast_level / allow_multicast",
      "technique": "stateful property-based testing: Hypothesis-generated call histories with fault injection, chip-level invariant checked after every returning call"},
@@ -50,7 +51,7 @@ CHECKS = [
      "text": "every (route length 1..8, direction, message type class, fault position) combination is enumerated: no fault, every "
              "attempt of the data frame at hop i lost, every attempt of the NETWORK_ACK relay at hop j lost, the first k attempts of "
              "the origin's frame lost with a route_timeout sweep, and a second acknowledged message relayed by the waiting sender, a child chattering to the waiting sender, "
-             "multicast_level overrides on every node, header objects carrying a stale origin, 24-byte messages; "
+             "multicast_level overrides on every node, header objects carrying a stale origin, 24-byte messages, a sender whose own queue holds 0..9 unread frames; "
              "Hypothesis draws routes over the whole address space, types 0..255, timeouts, MCU timing models, bystanders and faults "
              "beyond it; originators and addressees of type-193 frames, the arrival time of the NETWORK_ACK at the origin's chip and "
              "the duration of write() are taken from the medium's ground-truth log",
@@ -61,8 +62,8 @@ CHECKS = [
              "nodes), every node running its own update() loop as a task on its own simulated radio with a drawn MCU timing model, "
              "1..4 sequential messages (lengths 0..144, user types 0..127, write()/send(), fresh or explicit ids), per-node "
              "multicast_level overrides; after each message the network is left to become quiescent, all queues are compared with "
-             "what was sent and every frame a router took from the air must have been forwarded; routers with allow_multicast off, re-addressed "
-             "nodes, and queues read only at the end with frame ids colliding between origins (enumerated + drawn); schedules are sampled "
+             "what was sent and every frame a router took from the air must have been forwarded; routers with allow_multicast off, re-addressed and power-cycled "
+             "nodes, a failed write to an address nobody holds as history before a message, and queues read only at the end with frame ids colliding between origins (enumerated + drawn); schedules are sampled "
              "(seeded timing models), so an interleaving that needs a particular sub-millisecond alignment can be missed",
      "design_ref": "4/C05", "note": SIM_NOTE + "; loss-free medium with first-locked-wins on overlap; one open known finding "
      "(pipelined fragments, DESIGN 5.3) is excluded by signature and counted",
@@ -73,7 +74,7 @@ CHECKS = [
              "(exhaustive, default bytes, multicast on and off, plus drawn distinct byte sets); every ordered (source, destination) "
              "pair is routed by real write()/update() calls - quick: first hop of all 609 180 pairs + full delivery for a sample; "
              "thorough: full delivery of all pairs for both multicast settings - each hop compared with the reference tree path, "
-             "address and receiver set; multicast() to every level from sampled senders; drawn byte sets on drawn subtrees; re-keying every node after traffic",
+             "address and receiver set; multicast() to every level from sampled senders; drawn byte sets on drawn subtrees; re-keying every node after traffic; nodes created elsewhere and moved to their address",
      "design_ref": "4/C04", "note": SIM_NOTE + "; vlib/ref/netaddr.py (tree arithmetic, TMRh20 pipe_address) is the specification; "
      "IndexedMedium offers a packet only to chips whose registers show an enabled pipe on its address",
      "technique": "exhaustive enumeration of address pairs driven through the real API on a simulated population, differential against reference address arithmetic; Hypothesis for drawn byte sets/subtrees"},
@@ -103,7 +104,7 @@ CHECKS = [
              "air, a bounded-exhaustive set of structured frames (256 types x length classes x destination x origin classes), "
              "an address request from every one of the 781 well-formed origin addresses to a master, mesh-master histories with full "
              "parents, every sequence of 3 (thorough: 4) fragment / plain frames from one origin with multicast relaying, "
-             "fragmentation and re-addressing varied, payload batches before one update(), Hypothesis-generated payload sequences and a coverage-guided atheris/libFuzzer campaign (16 processes, empty and "
+             "fragmentation and re-addressing varied, the same with an acknowledging neighbourhood (transmissions succeed at radio level, nobody answers), payload batches before one update(), Hypothesis-generated payload sequences and a coverage-guided atheris/libFuzzer campaign (16 processes, empty and "
              "seeded corpora) whose target contains the same oracle: update() returns normally within 3 s of virtual time and (for "
              "the enumerated and generated parts named in DESIGN 4b) within a deterministic budget of executed library lines, frames "
              "rejected by the reference predicate cause no queue growth and no transmission",
@@ -160,7 +161,7 @@ CHECKS = [
              "the received sequence, pipe, any(), the W_TX_PAYLOAD bytes on the SPI bus and the caller's buffers are compared "
              "with the documented padding/truncation/rejection rule; plus ping-pong exchanges (both ends switch roles; the answer read at once or only after the next "
              "send_only send), write() as a call form, calls during which the peer is deaf, configuration pre-histories and call "
-             "orders, per-pipe payload modes, and long lists (4..12 payloads) with a receiver task draining the FIFO concurrently; sampled inputs, no exhaustiveness claimed",
+             "orders, per-pipe payload modes (int / list / tuple forms), enumerated write(write_only=True) bursts with CE raised by the application, ACK payloads left over at a role swap, and long lists (4..12 payloads) with a receiver task draining the FIFO concurrently; sampled inputs, no exhaustiveness claimed",
      "design_ref": "4/C01", "note": SIM_NOTE,
      "technique": "property-based testing (Hypothesis composite generator) with a documented-rule oracle on a simulated link"},
     {"property_id": "C03", "level": "exploration",
@@ -183,7 +184,7 @@ CHECKS = [
      "text": "every D/P/A outcome word over the (1+arc)(1+force_retry) attempts is enumerated for arc<=1 (quick) / arc<=2 "
              "(thorough), force_retry<=1, x {auto-ack, ACK payload loaded/empty} x send_only x follow-up call, plus "
              "no-ack modes and a deaf peer; Hypothesis histories (arc 0..15, all ard codes, force_retry 0..3, words to 64 "
-             "symbols, 1..6 calls incl. list input) beyond it; with read() / listen round trips / with-block re-entry between calls, neutral configuration pre-histories and "
+             "symbols, 1..6 calls incl. list input) beyond it; with read() / listen round trips (also with an uncollected ACK payload) / with-block re-entry between calls, neutral configuration pre-histories and "
              "short TX addresses after a pipe-0 history; each call's result, attempt count, duration and every on-air payload are "
              "judged against the medium's ground-truth log (an ACK the peer sent but the driver's own pipe-0 state made "
              "inaudible counts as acknowledged)",
